@@ -1542,3 +1542,17 @@ MUTANTS += [
                     queue,
                 })?;''')]),
 ]
+
+# ---- mutants for the rules and clauses added after the ninth seeded round
+MUTANTS += [
+    dict(name='truncate_quiet_ok_for_max_position', props=['C04', 'C01', 'C13'], rules=['QX5'], desc='truncate answers Ok without a WAL entry for one special position',
+         edits=[(MRL, '        let mut num_bytes_written =\n            self.record_log_writer\n                .write_record(MultiPlexedRecord::Truncate {', '        if truncate_range.end == u64::MAX {\n            return Ok(TruncateOutcome {\n                evicted_records: 0,\n                wal_bytes_written: 0,\n            });\n        }\n        let mut num_bytes_written =\n            self.record_log_writer\n                .write_record(MultiPlexedRecord::Truncate {')]),
+    dict(name='position_pass_counts_running_total', props=['C15'], rules=['BY8'], desc='the GC position loop adds the running total to itself',
+         edits=[(MRL, '            num_bytes_written += self.record_log_writer.write_record(record)?;\n        }\n        if num_bytes_written > 0 {', '            num_bytes_written += num_bytes_written + self.record_log_writer.write_record(record)?;\n        }\n        if num_bytes_written > 0 {')]),
+    dict(name='first_file_clone_across_gc', props=['C06'], rules=['GC3b'], desc='a clone of the first file number is kept across the unlink loop',
+         edits=[(MRL, '            let _file_number = self.record_log_writer.current_file().clone();', '            let _file_number = self.record_log_writer.current_file().clone();\n            let _first_before_gc = self.record_log_writer.directory().first_file_number().clone();')]),
+    dict(name='drain_index_defaults_to_zero', props=['C16'], rules=['MA5'], desc='truncate_head: position_to_idx(..).unwrap_or_default()',
+         edits=[(Q, '            .position_to_idx(truncate_up_to_pos + 1)\n            .unwrap_or_else(std::convert::identity);', '            .position_to_idx(truncate_up_to_pos + 1)\n            .unwrap_or_default();')]),
+    dict(name='untrack_only_when_unreferenced', props=['C17', 'C06'], rules=['GC13'], desc='untrack returns early unless can_be_deleted() (never true for the handle the caller holds)',
+         edits=[(FNUM, '    pub fn untrack(&mut self, file_number: &FileNumber) {\n        self.files.remove(file_number);', '    pub fn untrack(&mut self, file_number: &FileNumber) {\n        if !file_number.can_be_deleted() {\n            return;\n        }\n        self.files.remove(file_number);')]),
+]
